@@ -290,6 +290,19 @@ export function gen(rng, params, mode) {
     const src = ds.map(tsOfDecl).join("\n") + `\nparse.buildParsers<{ R: (${tsOf(x)}) extends (${tsOf(y)}) ? "yes" : "no" }>();\n`;
     return [A("sub"), A(String(counter++)), ds, x, y, src];
   }
+  if (rng.chance(1, 12)) {
+    // an intersection of object types that each carry a string index signature whose value types do not meet
+    // (`{ [k: string]: string } & { [k: string]: number }`): not empty — the object without keys is a value of it
+    const pool = [A("string"), A("number"), A("boolean"), A("null")];
+    const t1 = rng.pick(pool), t2 = rng.pick(pool.filter((t) => t !== t1));
+    const o1 = [A("obj"), [], [A("string"), t1]], o2 = [A("obj"), [], [A("string"), t2]];
+    const third = rng.chance(1, 3) ? [[A("obj"), [], [A("string"), rng.pick(pool)]]] : [];
+    const x = [A("inter"), o1, o2, ...third];
+    const y = rng.pick([genLeaf(rng), [A("obj"), [], A("none")], o1, [A("obj"), [["a", A("false"), A("string")]], A("none")], [A("array"), A("string")], [A("union"), genLeaf(rng), A("null")]]);
+    const [l, r] = rng.chance(4, 5) ? [x, y] : [y, x];
+    const src = decls.map(tsOfDecl).join("\n") + `\nparse.buildParsers<{ R: (${tsOf(l)}) extends (${tsOf(r)}) ? "yes" : "no" }>();\n`;
+    return [A("sub"), A(String(counter++)), decls, l, r, src];
+  }
   if (rng.chance(1, 10)) {
     // a tuple whose positions are small unions of literals against a union of tuples of the same length that split those
     // positions differently (`[boolean, boolean]` against `[true, true] | [false, boolean]`): a value outside the right-hand
